@@ -193,6 +193,13 @@ def build_case(ctx, r, sb):
             main_calls.append(i)
             feats.add("script-input:" + how)
             u += 1
+    if r.random() < 0.3:
+        # zero-length inputs: an empty (e.g. generated) linker script is a valid input that the link reads
+        erel = r.choice(["empty.lds", "scr/gen-empty.ld", "empty.t"])
+        write(os.path.join(sb, erel), "")
+        mark(erel, "linker-script")
+        items.append([spell(erel)])
+        feats.add("zero-length-script")
     expect_fail = r.random() < 0.08
     msrc = main_src(sorted(main_calls))
     if expect_fail:
